@@ -236,6 +236,8 @@ class Filenames(object):
                         self.variables.clear()
                         self.variables.update(g)
                         yield result
+                        # The give-up bound below is per request
+                        passes = 0
                     else:
                         continue
                     break
